@@ -40,6 +40,8 @@ CHECKS = {
          "every change of a position by a non-owner (bot message or chain sweep) must be justified by health <= safety factor or a reached stop-loss / take-profit measured immediately before that entry's turn; un-named and unjustified positions and their owners' balances stay as they were; every successful open (also via order execution) leaves stored and recomputed health above the safety factor", "6/C10", TB),
  "C20": ("exploration", "escrow-ledger monitor over pre-message / post-tx snapshots of every order, escrow and owner wallet",
          "around every tradeshield transaction of anyone: wallet+escrow per owner and denom conserved (a position opened by an executed order accounts for its collateral), un-named and un-triggered orders byte-identical (trigger evaluated by the monitor per order type), only owners update / cancel, failed executions leave no position behind, new escrows hold exactly the order amount", "6/C20", TB),
+ "C17": ("exploration", "exhaustive message-registry x sender-class sweep with store-digest differential + substitution twin through real blocks",
+         "every governance-gated message type registered by the running app is called, on discarded branches of several rich states, with the signer field set to every sender of every class (users, pool creator, feeder, validator operator, every module account, pool addresses): it must fail and the digest of all stores must not change (positive control: governance address is not rejected the same way); the same messages and owner-scoped attacks are also sent through real blocks next to a substitution twin", "6/C17", TB),
 }
 
 m = {"version": 1, "setup_cmd": "./setup.sh",
